@@ -2037,6 +2037,11 @@ class IndexSignature(BaseSignature):
             attrs (dict, optional):
                 Additional attributes to pass when constructing the index.
         """
+        if isinstance(fields, tuple):
+            # Tuples don't survive being stored (they're loaded back as
+            # lists), so normalize up-front, like we do for attributes.
+            fields = list(fields)
+
         self.expressions = expressions
         self.fields = fields
         self.name = name
